@@ -59,7 +59,8 @@ def conflict(pre, r):
 def gen_app(rng, ids, depth=0, max_routes=6, fangs=True, local=True, mounts=True, nparams_left=2):
     app = {'fangs': [], 'items': []}
     if fangs and rng.random() < 0.6:
-        app['fangs'] = [ids.fang() for _ in range(rng.choice([1, 1, 2, 3, 8] if rng.random() < 0.2 else [1, 1, 2]))]
+        app['fangs'] = [ids.fang() for _ in range(rng.choice([3, 4, 5, 6, 7, 8] if rng.random() < 0.35 else [1, 1, 2]))]
+        app['via_new'] = rng.random() < 0.5
     routes, mount_pre = [], []
     if mounts and depth < 2:
         for _ in range(rng.choice([0, 0, 1, 1, 2] if depth == 0 else [0, 0, 1])):
